@@ -221,6 +221,22 @@ def gen(props, tier, rng):
             for _ in range(300 if q else 3000):
                 data, _ = gen_wellformed(rng, 'CoAP'); m, nb = malformed(rng, data)
                 yield f'parse header CoAPParser 0 sem L:{packets.bits_of(m)}'
+            # length fields that disagree with the bytes that are there: every small / huge announced UDP, IPv6-payload and
+            # IPv4-total length, in front of every next-layer choice the library's tables offer, cut at and around header ends
+            ports = sorted(set(table_values(('microschc.protocol.udp', 'UDP_SUPPORTED_PAYLOAD_PROTOCOLS')))) + [4242]
+            tails = (b'', b'\x00', bytes.fromhex('40011234'), bytes(12), bytes.fromhex('40011234b161ff61'))
+            lens = list(range(0, 10)) + [12, 16, 0xffff]
+            for dst in ports:
+                for L in lens:
+                    for tail in tails:
+                        udp = bytes([rng.randrange(256), rng.randrange(256)]) + dst.to_bytes(2, 'big') + L.to_bytes(2, 'big') + bytes(2) + tail
+                        yield f'parse stack UDP {lbits(udp)}'
+                        yield f'parse header UDPParser 1 syn {lbits(udp)}'
+                        for L2 in (len(udp), L):
+                            v6 = bytes([0x60, 0, 0, 0]) + (L2 & 0xffff).to_bytes(2, 'big') + bytes([17, 64]) + bytes(32) + udp
+                            v4 = bytes([0x45, 0]) + ((20 + L2) & 0xffff).to_bytes(2, 'big') + bytes([0, 0, 0, 0, 64, 17, 0, 0]) + bytes(8) + udp
+                            yield f'parse stack IPv6 {lbits(v6)}'
+                            yield f'parse stack IPv4 {lbits(v4)}'
             # a header type that is its own next protocol (tunnels): nesting deeper than the interpreter's recursion limit
             import sys
             depth = sys.getrecursionlimit() + 200
